@@ -1,55 +1,580 @@
+// Harness for C33: api.SplitFile / SplitRaw / SplitByPageNrFile / MergeCreateFile /
+// MergeAppendFile / MergeCreateZipFile on generated page-tree documents with per-page
+// content markers, against the extracted model (coq/C33) and against the property itself.
 package main
 
 import (
+	"bytes"
 	"fmt"
-	"math/rand"
 	"os"
 	"path/filepath"
 	"sort"
+	"strconv"
+	"strings"
 
 	"github.com/pdfcpu/pdfcpu/pkg/api"
 	"verif/cmd/c33/pgdoc"
+	"verif/vh"
 )
 
-func main() {
-	api.DisableConfigDir()
-	dir := "/tmp/c33-scratch/probe"
-	os.RemoveAll(dir)
-	os.MkdirAll(dir, 0o755)
-	r := rand.New(rand.NewSource(1))
-	for it := 0; it < 6; it++ {
-		t := pgdoc.Gen(r, 5, pgdoc.GenOpt{MaxDepth: 2, NodeRot: true, NodeMedia: true, NodeCrop: it%2 == 0, NegRot: true, PageBoxes: true, RootAttrs: true})
-		in := filepath.Join(dir, "in.pdf")
-		pgdoc.WritePDF(t, in)
-		fmt.Println("TREE", t.Encode())
-		ps, err := pgdoc.ReadPages(in)
-		fmt.Println("READ", err, pgdoc.Canon(ps, false))
-		fmt.Println("WANT", pgdoc.Canon(pgdoc.Flatten(t), false))
-		out := filepath.Join(dir, "out")
-		os.RemoveAll(out)
-		os.MkdirAll(out, 0o755)
-		err = api.SplitFile(in, out, 2, nil)
-		fmt.Println("SPLIT", err)
-		fs, _ := filepath.Glob(out + "/*.pdf")
-		sort.Strings(fs)
-		for _, f := range fs {
-			ps, err := pgdoc.ReadPages(f)
-			fmt.Println("  ", filepath.Base(f), err, pgdoc.Canon(ps, false))
+var (
+	r   *vh.Run
+	dir string
+	seq int
+)
+
+func tmp(name string) string {
+	seq++
+	return filepath.Join(dir, fmt.Sprintf("%d_%s", seq, name))
+}
+
+func guard(what string, input any, f func() error) (err error) {
+	defer func() {
+		if p := recover(); p != nil {
+			r.OracleFail("panic:"+what, input, fmt.Sprint(p))
+			err = fmt.Errorf("panic: %v", p)
 		}
-		t2 := pgdoc.Gen(r, 3, pgdoc.GenOpt{MaxDepth: 1, NodeRot: true, NodeMedia: true, NodeCrop: true, FirstID: 100, RootAttrs: true})
-		in2 := filepath.Join(dir, "in2.pdf")
-		pgdoc.WritePDF(t2, in2)
-		fmt.Println("TREE2", t2.Encode())
-		fmt.Println("WANT2", pgdoc.Canon(pgdoc.Flatten(t2), false))
-		mo := filepath.Join(dir, "m.pdf")
-		err = api.MergeCreateFile([]string{in, in2}, mo, true, nil)
-		ps, e2 := pgdoc.ReadPages(mo)
-		fmt.Println("MERGE", err, e2, pgdoc.Canon(ps, false))
-		err = api.MergeCreateZipFile(in, in2, mo, nil)
-		ps, e2 = pgdoc.ReadPages(mo)
-		fmt.Println("ZIP", err, e2, pgdoc.Canon(ps, false))
-		err = api.MergeCreateZipFile(in2, in, mo, nil)
-		ps, e2 = pgdoc.ReadPages(mo)
-		fmt.Println("ZIP2", err, e2, pgdoc.Canon(ps, false))
+	}()
+	return f()
+}
+
+func sems(ps []pgdoc.VPage) []string {
+	o := make([]string, len(ps))
+	for i, p := range ps {
+		o[i] = p.Sem()
+	}
+	return o
+}
+
+func eqInts(a, b []int) bool {
+	if len(a) != len(b) {
+		return false
+	}
+	for i := range a {
+		if a[i] != b[i] {
+			return false
+		}
+	}
+	return true
+}
+
+// attrDiff classifies how two page lists with equal markers differ: "", "crop", "rot", "other".
+func attrDiff(got, want []pgdoc.VPage) string {
+	res := ""
+	for i := range got {
+		if got[i].Sem() == want[i].Sem() {
+			continue
+		}
+		g, w := got[i], want[i]
+		g.Crop, w.Crop = nil, nil
+		if g.Sem() == w.Sem() {
+			if res == "" {
+				res = "crop"
+			}
+			continue
+		}
+		g.Rot, w.Rot = 0, 0
+		if g.Sem() == w.Sem() {
+			if res == "" || res == "crop" {
+				res = "rot"
+			}
+			continue
+		}
+		return "other"
+	}
+	return res
+}
+
+type doc struct {
+	t     *pgdoc.Node
+	path  string
+	bytes []byte
+	pages []pgdoc.VPage
+}
+
+func mkdoc(t *pgdoc.Node, name string) *doc {
+	d := &doc{t: t, path: tmp(name)}
+	d.bytes = pgdoc.PDF(t)
+	if err := os.WriteFile(d.path, d.bytes, 0o644); err != nil {
+		panic(err)
+	}
+	ps, err := pgdoc.ReadPages(d.path)
+	got := "err"
+	if err == nil {
+		got = pgdoc.Canon(ps, false)
+	}
+	// reader + generator sanity: what is read back is what the model says the tree shows
+	r.Case("pages", []string{t.Encode()}, got)
+	d.pages = ps
+	if err != nil {
+		d.pages = pgdoc.Flatten(t)
+	}
+	return d
+}
+
+func (d *doc) unchanged() bool {
+	b, err := os.ReadFile(d.path)
+	return err == nil && bytes.Equal(b, d.bytes)
+}
+
+func genOpt(kind int) pgdoc.GenOpt {
+	switch kind % 6 {
+	case 0:
+		return pgdoc.GenOpt{MaxDepth: 0}
+	case 1:
+		return pgdoc.GenOpt{MaxDepth: 2, NodeRot: true, NodeMedia: true, PageBoxes: true, RootAttrs: true}
+	case 2:
+		return pgdoc.GenOpt{MaxDepth: 3, NodeRot: true, NodeMedia: true, PageBoxes: true}
+	case 3:
+		return pgdoc.GenOpt{MaxDepth: 2, NodeRot: true, NodeMedia: true, NodeCrop: true, PageBoxes: true, RootAttrs: true}
+	case 4:
+		return pgdoc.GenOpt{MaxDepth: 2, NodeRot: true, NegRot: true, RootAttrs: true}
+	default:
+		return pgdoc.GenOpt{MaxDepth: 1, NodeMedia: true, RootAttrs: true}
+	}
+}
+
+var kindName = []string{"flat", "inherit", "deep", "nodecrop", "wildrot", "rootmedia"}
+
+// parts of a split: files <base>_<from>[-<thru>].pdf in out, sorted by from
+type part struct {
+	from, thru int
+	pages      []pgdoc.VPage
+}
+
+func readParts(out, base string) ([]part, error) {
+	fs, _ := filepath.Glob(filepath.Join(out, "*.pdf"))
+	var ps []part
+	for _, f := range fs {
+		n := strings.TrimSuffix(filepath.Base(f), ".pdf")
+		if !strings.HasPrefix(n, base+"_") {
+			return nil, fmt.Errorf("unexpected file %s", f)
+		}
+		ft := strings.Split(n[len(base)+1:], "-")
+		from, err := strconv.Atoi(ft[0])
+		if err != nil {
+			return nil, err
+		}
+		thru := from
+		if len(ft) == 2 {
+			if thru, err = strconv.Atoi(ft[1]); err != nil {
+				return nil, err
+			}
+		}
+		pg, err := pgdoc.ReadPages(f)
+		if err != nil {
+			return nil, err
+		}
+		ps = append(ps, part{from, thru, pg})
+	}
+	sort.Slice(ps, func(i, j int) bool { return ps[i].from < ps[j].from })
+	return ps, nil
+}
+
+func canonParts(ps []part) (string, string) {
+	a := make([]string, len(ps))
+	b := make([]string, len(ps))
+	for i, p := range ps {
+		a[i] = pgdoc.Canon(p.pages, false)
+		b[i] = vh.Int(int64(p.from)) + "-" + vh.Int(int64(p.thru))
+	}
+	return "ok:" + strings.Join(a, "|"), "ok:" + strings.Join(b, ",")
+}
+
+// splitOracle: the property on the implementation's output. cuts = expected first pages of the parts (nil: by span).
+func splitOracle(op string, d *doc, ps []part, span int, cuts []int, input map[string]any) {
+	var all []pgdoc.VPage
+	bad := ""
+	next := 1
+	for i, p := range ps {
+		if len(p.pages) == 0 || p.thru < p.from {
+			bad = "empty part"
+		}
+		if p.from != next || p.thru-p.from+1 != len(p.pages) {
+			bad = fmt.Sprintf("part %d is named %d-%d, holds %d pages, expected to start at %d", i, p.from, p.thru, len(p.pages), next)
+		}
+		next = p.thru + 1
+		if span > 0 && i < len(ps)-1 && len(p.pages) != span {
+			bad = fmt.Sprintf("part %d has %d pages, span %d", i, len(p.pages), span)
+		}
+		if span > 0 && len(p.pages) > span {
+			bad = "part longer than span"
+		}
+		if cuts != nil && (i >= len(cuts) || cuts[i] != p.from) {
+			bad = fmt.Sprintf("part %d starts at %d, expected cuts %v", i, p.from, cuts)
+		}
+		all = append(all, p.pages...)
+	}
+	if cuts != nil && len(cuts) != len(ps) {
+		bad = fmt.Sprintf("%d parts, expected cuts %v", len(ps), cuts)
+	}
+	switch {
+	case bad != "":
+		r.OracleFail(op+"-parts", input, bad)
+	case !eqInts(pgdoc.IDs(all), pgdoc.IDs(d.pages)):
+		r.OracleFail(op+"-page-sequence", input, fmt.Sprintf("markers %v, original %v", pgdoc.IDs(all), pgdoc.IDs(d.pages)))
+	case !d.unchanged():
+		r.OracleFail(op+"-input-modified", input, "input file changed")
+	default:
+		switch attrDiff(all, d.pages) {
+		case "":
+			r.OracleOK()
+		case "crop":
+			r.OracleFail("split-inherited-cropbox-lost", input, "parts "+pgdoc.Canon(all, false)+" original "+pgdoc.Canon(d.pages, false))
+		case "rot":
+			r.OracleFail("split-inherited-rotate-lost", input, "parts "+pgdoc.Canon(all, false)+" original "+pgdoc.Canon(d.pages, false))
+		default:
+			r.OracleFail(op+"-page-attributes", input, "parts "+pgdoc.Canon(all, false)+" original "+pgdoc.Canon(d.pages, false))
+		}
+	}
+}
+
+func splitSpan(n, span, kind int) {
+	t := pgdoc.Gen(r.Rand, n, genOpt(kind))
+	d := mkdoc(t, "in.pdf")
+	input := map[string]any{"op": "SplitFile", "tree": t.Encode(), "span": span}
+	r.Count("split-span:" + kindName[kind%6])
+
+	// SplitRaw: the spans themselves
+	var raw string
+	guard("SplitRaw", input, func() error {
+		f, err := os.Open(d.path)
+		if err != nil {
+			return err
+		}
+		defer f.Close()
+		pss, err := api.SplitRaw(f, span, nil)
+		if err != nil {
+			raw = "err"
+			return nil
+		}
+		s := make([]string, len(pss))
+		for i, p := range pss {
+			s[i] = vh.Int(int64(p.From)) + "-" + vh.Int(int64(p.Thru))
+		}
+		raw = "ok:" + strings.Join(s, ",")
+		return nil
+	})
+	r.Case("span_parts", []string{vh.Int(int64(n)), vh.Int(int64(span))}, raw)
+
+	out := tmp("out")
+	os.MkdirAll(out, 0o755)
+	var err error
+	if guard("SplitFile", input, func() error { err = api.SplitFile(d.path, out, span, nil); return nil }) != nil {
+		return
+	}
+	if err != nil {
+		r.Case("split_span", []string{t.Encode(), vh.Int(int64(span))}, "err")
+		if span >= 1 {
+			r.OracleFail("split-span-fails", input, err.Error())
+		} else {
+			r.OracleOK()
+		}
+		return
+	}
+	base := strings.TrimSuffix(filepath.Base(d.path), ".pdf")
+	ps, err := readParts(out, base)
+	if err != nil {
+		r.Case("split_span", []string{t.Encode(), vh.Int(int64(span))}, "unreadable:"+err.Error())
+		r.OracleFail("split-span-unreadable-output", input, err.Error())
+		return
+	}
+	docs, names := canonParts(ps)
+	r.Case("split_span", []string{t.Encode(), vh.Int(int64(span))}, docs)
+	r.Case("span_parts", []string{vh.Int(int64(n)), vh.Int(int64(span))}, names)
+	splitOracle("split-span", d, ps, span, nil, input)
+	os.RemoveAll(out)
+	os.Remove(d.path)
+}
+
+func validNrs(n int, nrs []int) bool {
+	if len(nrs) == 0 || nrs[0] < 2 || nrs[0] > n {
+		return false
+	}
+	for i := 1; i < len(nrs); i++ {
+		if nrs[i] <= nrs[i-1] {
+			return false
+		}
+	}
+	return true
+}
+
+func splitAlong(n int, nrs []int, kind int) {
+	t := pgdoc.Gen(r.Rand, n, genOpt(kind))
+	d := mkdoc(t, "in.pdf")
+	input := map[string]any{"op": "SplitByPageNrFile", "tree": t.Encode(), "pageNrs": nrs}
+	out := tmp("out")
+	os.MkdirAll(out, 0o755)
+	var err error
+	if guard("SplitByPageNrFile", input, func() error { err = api.SplitByPageNrFile(d.path, out, nrs, nil); return nil }) != nil {
+		return
+	}
+	args := []string{t.Encode(), vh.Ints(nrs)}
+	valid := validNrs(n, nrs)
+	if valid {
+		r.Count("split-along:valid")
+	} else {
+		r.Count("split-along:invalid")
+	}
+	if err != nil {
+		r.Case("split_along", args, "err")
+		fs, _ := filepath.Glob(filepath.Join(out, "*"))
+		if valid {
+			r.OracleFail("split-along-fails", input, err.Error())
+		} else if len(fs) > 0 {
+			r.OracleFail("split-along-rejected-but-wrote-files", input, fmt.Sprint(fs))
+		} else {
+			r.OracleOK()
+		}
+		return
+	}
+	base := strings.TrimSuffix(filepath.Base(d.path), ".pdf")
+	ps, err := readParts(out, base)
+	if err != nil {
+		r.Case("split_along", args, "unreadable:"+err.Error())
+		r.OracleFail("split-along-unreadable-output", input, err.Error())
+		return
+	}
+	docs, names := canonParts(ps)
+	r.Case("split_along", args, docs)
+	r.Case("along_parts", []string{vh.Int(int64(n)), vh.Ints(nrs)}, names)
+	if !valid {
+		// page numbers must be sorted, unique, >= 2 (doc comment of SplitByPageNr) and the first within the document
+		r.OracleFail("split-along-accepts-invalid-page-numbers", input, names)
+	} else {
+		cuts := []int{1}
+		for _, p := range nrs {
+			if p <= n {
+				cuts = append(cuts, p)
+			}
+		}
+		splitOracle("split-along", d, ps, 0, cuts, input)
+	}
+	os.RemoveAll(out)
+	os.Remove(d.path)
+}
+
+func mergeCase(m int, divider, appendMode bool, kinds []int) {
+	var docs []*doc
+	id := 1
+	for i := 0; i < m; i++ {
+		o := genOpt(kinds[i])
+		o.FirstID = id
+		n := 1 + r.Rand.Intn(6)
+		id += n
+		docs = append(docs, mkdoc(pgdoc.Gen(r.Rand, n, o), fmt.Sprintf("m%d.pdf", i)))
+	}
+	enc := make([]string, m)
+	paths := make([]string, m)
+	for i, d := range docs {
+		enc[i] = d.t.Encode()
+		paths[i] = d.path
+	}
+	op := "MergeCreateFile"
+	if appendMode {
+		op = "MergeAppendFile"
+	}
+	input := map[string]any{"op": op, "docs": enc, "divider": divider}
+	out := tmp("merged.pdf")
+	var err error
+	if guard(op, input, func() error {
+		if appendMode {
+			// the first document is the existing destination file
+			if err := os.WriteFile(out, docs[0].bytes, 0o644); err != nil {
+				return err
+			}
+			err = api.MergeAppendFile(paths[1:], out, divider, nil)
+		} else {
+			err = api.MergeCreateFile(paths, out, divider, nil)
+		}
+		return nil
+	}) != nil {
+		return
+	}
+	r.Count("merge:" + op)
+	args := append([]string{vh.Bool(divider)}, enc...)
+	if err != nil {
+		r.Case("merge", args, "err")
+		r.OracleFail("merge-fails", input, err.Error())
+		return
+	}
+	ps, err := pgdoc.ReadPages(out)
+	if err != nil {
+		r.Case("merge", args, "unreadable:"+err.Error())
+		r.OracleFail("merge-unreadable-output", input, err.Error())
+		return
+	}
+	r.Case("merge", args, "ok:"+pgdoc.Canon(ps, true))
+	// property: concatenation, one blank divider exactly between consecutive documents when requested
+	var want []pgdoc.VPage
+	for i, d := range docs {
+		if i > 0 && divider {
+			want = append(want, pgdoc.VPage{ID: 0})
+		}
+		want = append(want, d.pages...)
+	}
+	ok := len(ps) == len(want)
+	if ok {
+		for i := range ps {
+			if want[i].ID == 0 {
+				ok = ok && ps[i].ID == 0
+			} else {
+				ok = ok && ps[i].Sem() == want[i].Sem()
+			}
+		}
+	}
+	unchanged := true
+	for i, d := range docs {
+		if appendMode && i == 0 {
+			continue
+		}
+		unchanged = unchanged && d.unchanged()
+	}
+	switch {
+	case !eqInts(pgdoc.IDs(ps), pgdoc.IDs(want)):
+		r.OracleFail("merge-page-sequence", input, fmt.Sprintf("markers %v, expected %v", pgdoc.IDs(ps), pgdoc.IDs(want)))
+	case !ok:
+		r.OracleFail("merge-page-attributes", input, "got "+pgdoc.Canon(ps, true)+" expected "+pgdoc.Canon(want, true))
+	case !unchanged:
+		r.OracleFail("merge-input-modified", input, "an input file changed")
+	default:
+		r.OracleOK()
+	}
+	os.Remove(out)
+	for _, d := range docs {
+		os.Remove(d.path)
+	}
+}
+
+func zipCase(na, nb, ka, kb int) {
+	oa, ob := genOpt(ka), genOpt(kb)
+	ob.FirstID = 100
+	a := mkdoc(pgdoc.Gen(r.Rand, na, oa), "za.pdf")
+	b := mkdoc(pgdoc.Gen(r.Rand, nb, ob), "zb.pdf")
+	input := map[string]any{"op": "MergeCreateZipFile", "a": a.t.Encode(), "b": b.t.Encode()}
+	out := tmp("zip.pdf")
+	var err error
+	if guard("MergeCreateZipFile", input, func() error { err = api.MergeCreateZipFile(a.path, b.path, out, nil); return nil }) != nil {
+		return
+	}
+	r.Count("zip:" + kindName[ka%6] + "+" + kindName[kb%6])
+	args := []string{a.t.Encode(), b.t.Encode()}
+	if err != nil {
+		r.Case("zip", args, "err")
+		r.OracleFail("zip-fails", input, err.Error())
+		return
+	}
+	ps, err := pgdoc.ReadPages(out)
+	if err != nil {
+		r.Case("zip", args, "unreadable:"+err.Error())
+		r.OracleFail("zip-unreadable-output", input, err.Error())
+		return
+	}
+	r.Case("zip", args, "ok:"+pgdoc.Canon(ps, false))
+	var want []pgdoc.VPage
+	for i := 0; i < na || i < nb; i++ {
+		if i < na {
+			want = append(want, a.pages[i])
+		}
+		if i < nb {
+			want = append(want, b.pages[i])
+		}
+	}
+	switch {
+	case !eqInts(pgdoc.IDs(ps), pgdoc.IDs(want)):
+		r.OracleFail("zip-page-sequence", input, fmt.Sprintf("markers %v, expected %v", pgdoc.IDs(ps), pgdoc.IDs(want)))
+	case !a.unchanged() || !b.unchanged():
+		r.OracleFail("zip-input-modified", input, "an input file changed")
+	default:
+		switch attrDiff(ps, want) {
+		case "":
+			r.OracleOK()
+		case "crop":
+			r.OracleFail("zip-inherited-cropbox", input, "got "+pgdoc.Canon(ps, false)+" expected "+pgdoc.Canon(want, false))
+		default:
+			r.OracleFail("zip-page-attributes", input, "got "+pgdoc.Canon(ps, false)+" expected "+pgdoc.Canon(want, false))
+		}
+	}
+	os.Remove(out)
+	os.Remove(a.path)
+	os.Remove(b.path)
+}
+
+func main() {
+	r = vh.Start("C33")
+	defer r.Finish()
+	api.DisableConfigDir()
+	dir = filepath.Join("/tmp/c33-scratch", fmt.Sprintf("run-%d", os.Getpid()))
+	os.RemoveAll(dir)
+	if err := os.MkdirAll(dir, 0o755); err != nil {
+		panic(err)
+	}
+	defer os.RemoveAll(dir)
+
+	// split by span: every n in 1..N, every span in 1..n+1 (plus 0 < span cases beyond n)
+	N := r.Pick(12, 30)
+	k := 0
+	for n := 1; n <= N; n++ {
+		for span := 1; span <= n+1; span++ {
+			if n > 12 && span > 6 && span < n-1 && r.Rand.Intn(3) != 0 {
+				continue
+			}
+			splitSpan(n, span, k)
+			k++
+		}
+	}
+	splitSpan(3, -1, 0)
+	splitSpan(5, 31, 1)
+
+	// split before page numbers: valid lists, and unsorted / duplicate / out-of-range / < 2 / empty ones
+	for i := 0; i < r.Pick(120, 900); i++ {
+		n := 1 + r.Rand.Intn(r.Pick(12, 30))
+		var nrs []int
+		switch r.Rand.Intn(8) {
+		case 0: // arbitrary
+			for j := r.Rand.Intn(4); j > 0; j-- {
+				nrs = append(nrs, r.Rand.Intn(n+4)-1)
+			}
+		case 1: // sorted, possibly running past the end
+			p := 2 + r.Rand.Intn(n)
+			for j := 1 + r.Rand.Intn(4); j > 0; j-- {
+				nrs = append(nrs, p)
+				p += 1 + r.Rand.Intn(n)
+			}
+		case 2: // duplicate
+			p := 2 + r.Rand.Intn(n)
+			nrs = []int{p, p}
+		default: // valid
+			for p := 2; p <= n; p++ {
+				if r.Rand.Intn(3) == 0 {
+					nrs = append(nrs, p)
+				}
+			}
+			if r.Rand.Intn(4) == 0 && len(nrs) > 0 {
+				nrs = append(nrs, n+1+r.Rand.Intn(3))
+			}
+		}
+		splitAlong(n, nrs, i)
+	}
+
+	// merges of 1..5 documents, create and append, with and without divider pages
+	for i := 0; i < r.Pick(90, 700); i++ {
+		m := 1 + r.Rand.Intn(5)
+		kinds := make([]int, m)
+		for j := range kinds {
+			kinds[j] = r.Rand.Intn(6)
+		}
+		mergeCase(m, r.Rand.Intn(2) == 0, m > 1 && r.Rand.Intn(2) == 0, kinds)
+	}
+
+	// zip merges: all length pairs up to 6 (quick) / 9, random kinds
+	Z := r.Pick(6, 9)
+	for na := 1; na <= Z; na++ {
+		for nb := 1; nb <= Z; nb++ {
+			zipCase(na, nb, r.Rand.Intn(6), r.Rand.Intn(6))
+			if r.Thorough() {
+				zipCase(na, nb, r.Rand.Intn(6), r.Rand.Intn(6))
+			}
+		}
 	}
 }
